@@ -4,8 +4,9 @@ Property theorems for pkg/format/rtph264: round trip (C03) and resynchronisation
 
   C03  c03_roundtrip, c03_roundtrip_many
   C07  c07_flush_false (the negation of the full flush statement, with witness),
-       c07_lag_witness (the reachable 16-packet trace), c07_lag_step (the defect, for every state),
-       c07_flush_partial, c07_resync_partial, c07_resync_keyframe
+       c07_lag_witness (the reachable 15-packet trace), c07_lag_step / c07_lag_forever (the defect, for
+       every state and any number of frames),
+       c07_flush_partial, c07_resync_partial, c07_resync_keyframe, c07_ok_only_at_marker_or_ts_change
 
 The RTP timestamp is set by the caller of the encoder; `stamp ts` sets it on all packets of a frame.
 -/
@@ -329,6 +330,111 @@ theorem c07_resync_keyframe (h : List Pkt) (e : Enc) (f g : List Bytes) (tf tg :
     ∃ d', runDec (runDec (runDec {} h).1 (stamp tf (encode e f).2)).1 (stamp tg (encode (encode e f).1 g).2)
         = (d', List.replicate ((encode (encode e f).1 g).2.length - 1) .more ++ [.ok g]) ∧ Clean d' :=
   c07_resync_partial h e f g tf tg hc hf hg ha (Or.inr h2)
+
+/-- **C07 "exactly once"**: an access unit is returned only at a packet that carries the marker (and
+then the buffer is empty afterwards: it cannot be returned again) or at a timestamp change (and then
+it is exactly the unit that was buffered, which is replaced by the NALUs of the current packet). -/
+theorem c07_ok_only_at_marker_or_ts_change (d : Dec) (p : Pkt) (f : List Bytes)
+    (h : (decode d p).2 = .ok f) :
+    (p.marker = true ∧ (decode d p).1.frameBuffer = []) ∨
+    (d.frameBuffer ≠ [] ∧ p.ts ≠ d.frameBufferTimestamp ∧ f = d.frameBuffer) := by
+  have hfb := decodeNALUs_fbPart d p
+  unfold decode at h ⊢
+  split at h
+  · simp at h
+  · simp at h
+  · simp at h
+  · rename_i d1 ns heq
+    rw [heq] at hfb
+    simp only [fbPart, Prod.mk.injEq] at hfb
+    unfold addNALUs at h ⊢
+    split at h
+    · rename_i hts
+      right
+      split at h
+      · simp at h
+      · simp only [DecRes.ok.injEq] at h
+        rw [hfb.1, hfb.2.2.2] at hts
+        refine ⟨?_, hts.2, by rw [← h, hfb.1]⟩
+        intro h0; simp [h0] at hts
+    · rename_i hts
+      left
+      simp only [hts, if_false]
+      split at h
+      · simp at h
+      · rename_i d2 hadd
+        split at h
+        · simp at h
+        · rename_i hm
+          simp only [hm]
+          exact ⟨by simpa using hm, by simp [Dec.resetFrameBuffer]⟩
+
+/-- what a lagging decoder answers on `stream e fs`: at the last packet of every frame the frame
+BEFORE it (`prev`), never the frame itself -/
+def lagExpected (e : Enc) (prev : List Bytes) : List (UInt32 × List Bytes) → List (DecRes (List Bytes))
+  | [] => []
+  | (_, au) :: fs =>
+    List.replicate ((encode e au).2.length - 1) .more ++ [.ok prev] ++ lagExpected (encode e au).1 au fs
+
+/-- the last access unit of a stream, `x` if there is none -/
+def lastOr : List (UInt32 × List Bytes) → List Bytes → List Bytes
+  | [], x => x
+  | (_, au) :: fs, _ => lastOr fs au
+
+/-- consecutive frames carry different timestamps, the first differs from `t0` -/
+def DistinctTs (t0 : UInt32) : List (UInt32 × List Bytes) → Prop
+  | [] => True
+  | (ts, _) :: fs => t0 ≠ ts ∧ DistinctTs ts fs
+
+/-- **the lag never ends**: a decoder holding a stale access unit, fed any number of intact valid
+frames that each consist of ONE batch (one NALU, fragmented or not, or one STAP-A) under changing
+timestamps, returns at every frame's last packet the PREVIOUS access unit and finishes holding the
+last frame — no frame is ever returned at its own completing packet. -/
+theorem c07_lag_forever (e : Enc) (fs : List (UInt32 × List Bytes)) (d : Dec)
+    (hc : ValidCfg e.cfg) (hf : ∀ f ∈ fs, ValidFrame f.2)
+    (hone : ∀ f ∈ fs, splitBatches 1 e.cfg.max [] f.2 = [f.2])
+    (ha : d.annexBMode = false) (hstale : d.frameBuffer ≠ [])
+    (hts : DistinctTs d.frameBufferTimestamp fs) :
+    ∃ d', runDec d (stream e fs) = (d', lagExpected e d.frameBuffer fs) ∧
+      d'.frameBuffer = lastOr fs d.frameBuffer := by
+  induction fs generalizing e d with
+  | nil => exact ⟨d, rfl, rfl⟩
+  | cons f fs ih =>
+    obtain ⟨ts, au⟩ := f
+    have hfau := hf (ts, au) (by simp)
+    obtain ⟨d1, h1, g1, g2, g3⟩ := c07_lag_step e au ts d au hc hfau ha (hone (ts, au) (by simp)) hstale hts.1
+    have hc1 : ValidCfg (encode e au).1.cfg := by simpa [encode] using hc
+    have hmax : (encode e au).1.cfg.max = e.cfg.max := by simp [encode]
+    obtain ⟨d2, h2, g4⟩ := ih (encode e au).1 d1 hc1 (fun x hx => hf x (by simp [hx]))
+      (fun x hx => by rw [hmax]; exact hone x (by simp [hx])) g3
+      (by rw [g1]; exact hfau.1) (by rw [g2]; exact hts.2)
+    refine ⟨d2, ?_, ?_⟩
+    · simp only [stream, lagExpected, runDec_append, h1, h2, g1]
+    · rw [g4, g1]
+      rfl
+
+/-! ### the validity predicate is what the code needs (each restriction has a failing frame) -/
+
+def vEnc : Enc := { cfg := { pt := 96, ssrc := 7, max := 12 }, seq := 0 }
+def body (k : Nat) : Bytes := (List.range k).map (fun i => UInt8.ofNat (i + 2))
+
+/-- forbidden_zero_bit set + fragmentation: the FU-A indicator drops the bit, the NALU comes back
+with another first byte (`e5` → `65`) -/
+example : (runDec {} (stamp 0 (encode vEnc [0xe5 :: body 20]).2)).2.getLast? = some (.ok [0x65 :: body 20]) := by
+  decide
+/-- the same NALU below the limit (single-NALU packet) is transported unchanged -/
+example : (runDec {} (stamp 0 (encode vEnc [0xe5 :: body 5]).2)).2 = [.ok [0xe5 :: body 5]] := by decide
+/-- `00 00 01` inside a fragmented NALU: `splitNALUs` returns two NALUs -/
+example : (runDec {} (stamp 0 (encode vEnc [0x65 :: (body 8 ++ [0, 0, 1] ++ body 9)]).2)).2.getLast?
+    = some (.ok [0x65 :: body 8, body 9]) := by decide
+/-- … but not inside a NALU that travels in a single-NALU packet: `ValidNalu` is sufficient, not
+necessary (the exact condition depends on how the access unit is packetised) -/
+example : (runDec {} (stamp 0 (encode vEnc [[0x65, 9, 0, 0, 1, 7]]).2)).2 = [.ok [[0x65, 9, 0, 0, 1, 7]]] := by
+  decide
+/-- `00 00 00 01` in a single-NALU packet switches Annex-B mode on — for good -/
+example : (runDec {} (stamp 0 (encode vEnc [[0x65, 0, 0, 0, 1, 7]]).2)).1.annexBMode = true := by decide
+/-- NALU type 28 (FU-A) as a single NALU is read as a fragment -/
+example : (runDec {} (stamp 0 (encode vEnc [[0x7c, 0x05, 1, 2]]).2)).2 = [.nonStart] := by decide
 
 /-! ## non-vacuity -/
 
